@@ -904,6 +904,7 @@ func everyElement(f *ssa.Function, pred func(ssa.Instruction) bool) (bool, strin
 // c06SwapDelete: G4 — S[a] = S[b]; S = S[1:]  requires b == 0 (the dropped element is saved into the vacated slot)
 func c06SwapDelete(a *Anchors, r *core.Report) {
 	swapDeleteRules(a, r, "C06.G4 swap-delete")
+	resliceRemoval(a, r, "C06.G4 swap-delete")
 }
 
 func swapDeleteRules(a *Anchors, r *core.Report, rule string) {
@@ -980,6 +981,92 @@ func swapDeleteRules(a *Anchors, r *core.Report, rule string) {
 				} else {
 					r.OK(rule, key, fn, a.P.Pos(st.Pos()), inst, "S[i] = S[k]; S = S[:last]")
 				}
+			}
+		})
+	}
+}
+
+// resliceRemoval: G4r — anchored on the store-back itself: a struct field that holds a slice is cut by
+// one element (F = F[1:] or F = F[:len-1]). Cutting the FIRST element is a removal of element i only
+// if the first element was saved into slot i before (F[i] = F[0]); cutting the LAST one only after
+// F[i] = F[last] or after the tail was shifted down (copy(F[i:], F[i+1:])). Anything else drops an
+// element that was not the one to be removed.
+func resliceRemoval(a *Anchors, r *core.Report, rule string) {
+	rid := strings.SplitN(rule, " ", 2)[0]
+	for _, f := range a.P.SrcFuncs {
+		eachInstr(f, func(in ssa.Instruction) {
+			st, ok := in.(*ssa.Store)
+			if !ok {
+				return
+			}
+			if _, isField := st.Addr.(*ssa.FieldAddr); !isField {
+				return
+			}
+			sl, ok := st.Val.(*ssa.Slice)
+			if !ok {
+				return
+			}
+			bd, pd, okd := fieldPath(st.Addr)
+			bs, ps, oks := fieldPath(sl.X)
+			if !okd || !oks || canon(bd) != canon(bs) || strings.Join(pd, ".") != strings.Join(ps, ".") {
+				return
+			}
+			dropFirst := false
+			if sl.Low != nil && sl.High == nil {
+				if c, ok := constInt(sl.Low); ok && c == 1 {
+					dropFirst = true
+				}
+			}
+			dropLast := sl.Low == nil && sl.High != nil
+			if !dropFirst && !dropLast {
+				return
+			}
+			sameField := func(v ssa.Value) bool {
+				b, pth, ok := fieldPath(v)
+				return ok && canon(b) == canon(bd) && strings.Join(pth, ".") == strings.Join(pd, ".")
+			}
+			// fills that precede the cut
+			swapFirst, swapOther, shift := false, false, false
+			eachInstr(f, func(x ssa.Instruction) {
+				if !instrReachable(x, in) {
+					return
+				}
+				if s2, ok := x.(*ssa.Store); ok {
+					dst, ok1 := s2.Addr.(*ssa.IndexAddr)
+					ld, ok2 := s2.Val.(*ssa.UnOp)
+					if ok1 && ok2 && ld.Op == token.MUL {
+						if src, ok3 := ld.X.(*ssa.IndexAddr); ok3 && sameField(dst.X) && sameField(src.X) {
+							_, dstConst := constInt(dst.Index)
+							if c, isC := constInt(src.Index); isC && c == 0 && !dstConst {
+								swapFirst = true
+							} else if !dstConst {
+								swapOther = true
+							}
+						}
+					}
+				}
+				if cc := callCommon(x); cc != nil {
+					if b, ok := cc.Value.(*ssa.Builtin); ok && b.Name() == "copy" && len(cc.Args) == 2 {
+						d, ok1 := cc.Args[0].(*ssa.Slice)
+						s0, ok2 := cc.Args[1].(*ssa.Slice)
+						if ok1 && ok2 && sameField(d.X) && sameField(s0.X) && d.Low != nil && s0.Low != nil {
+							shift = true
+						}
+					}
+				}
+			})
+			fn := fname(f)
+			key := rid + "|" + fn + "|cut:" + strings.Join(pd, ".")
+			inst := "the element cut off " + strings.Join(pd, ".") + " is one whose value was moved into the removed element's slot (or the tail was shifted down)"
+			switch {
+			case dropFirst && swapFirst && !shift:
+				r.OK(rule, key, fn, a.P.Pos(in.Pos()), inst, "F[i] = F[0]; F = F[1:]")
+			case dropFirst:
+				r.Bad(rule, key, fn, a.P.Pos(in.Pos()), inst, "the FIRST element is cut off but it was not saved into the removed element's slot before (no F[i] = F[0]; a shifted tail needs F = F[:len-1]): a surviving entry drops out of the list — the owner's termination never releases it")
+			case dropLast && (swapOther || shift):
+				r.OK(rule, key, fn, a.P.Pos(in.Pos()), inst, "the last element is cut after a swap with it / a shift of the tail")
+			default:
+				// a plain truncation (pop) — not a removal by index
 			}
 		})
 	}
